@@ -296,7 +296,7 @@ class Resample(ResampleModel):
         I.path.assume(s.f["x"].n >= 1)
         beta = R(z3.Real("beta_new"))
         M = z3.Int("n_samples")
-        I.path.assume(M >= 1)
+        I.path.assume(M >= 0)              # 0 is a size like any other (a computed keep-count may round down to it): it is not "no size given"
         rng = Sym(z3.Const("user_rng", Misc), "rng")
         kw = {"n_samples": IV(M) if shape["n_samples"] else NONE, "rng": rng if shape["rng"] else NONE}
         return Pre(s, [beta], kw, ghost={"s": s, "beta": beta, "M": M, "rng": rng, "shape": shape, "snapshot": dict(s.f)})
